@@ -377,7 +377,7 @@ pub fn check_c15(tier: &str, seed: u64) -> i32 {
             }
         }
     }
-    let total: u32 = if tier == "thorough" { 256 } else { 96 };
+    let total: u32 = if tier == "thorough" { 128 } else { 96 };
     let m = match run_shards("C15", tier, seed, 16, total.div_ceil(16), &exclude, std::time::Duration::from_secs(if tier == "thorough" { 4 * 3600 } else { 1200 })) {
         Ok(m) => m,
         Err(e) => {
